@@ -180,7 +180,7 @@ class Checker:
         r = self.drv.call("c15.spec", tree=ex)
         spec = r["lines"]
         self.last_wf = (r["wf_unquote"], r["wf_kinds"], r["wf_posonly"], r["wf_alias"], r["wf_stages4"], r["wf_stages6"],
-                        r["stage6_eq_tweak"], r["repr_is_dumpNoCtx"])
+                        r["stage6_eq_tweak"], r["repr_is_dumpNoCtx"], r["wf_tweak"])
         return tree, impl, model, spec
 
     def fails(self, src):
@@ -219,6 +219,12 @@ class Checker:
         ctx.dist("hypothesis wfStages4 (first four passes) " + ("holds" if self.last_wf[4] else "FAILS") + " on the real tree")
         ctx.dist("hypothesis wfStages6 (Tree.WF of C15_tweaks_full) " + ("holds" if self.last_wf[5] else "FAILS") + " on the real tree")
         ctx.dist("stage6 = tweak (staged tweaks vs one-shot specification) " + ("holds" if self.last_wf[6] else "FAILS") + " on the real tree")
+        ctx.dist("hypothesis wfTweak (staged tweaks = one-shot specification) " + ("holds" if self.last_wf[8] else "FAILS") +
+                 " on the real tree")
+        if not self.last_wf[8] and not (fe.quirk_features(tree) - {"async-def", "bytes-repr-double-quoted"}):
+            ctx.dist("LEAD: wfTweak fails on a non-adversarial tree")
+            if len(ctx.notes) < 5:
+                ctx.notes.append("lead: wfTweak fails on a non-adversarial tree: " + src[:300])
         ctx.dist("hypothesis reprsAreDumps (exported hash source = dumpNoCtx of the node) " +
                  ("holds" if self.last_wf[7] else "FAILS") + " on the real tree")
         if not self.last_wf[7]:
@@ -528,8 +534,8 @@ def run(ctx):
         "it needs the injectivity of Python's repr-based dump text (checked by c15.spec: hashes recomputed from a "
         "length-prefixed canonical form); that the exported hash source is dumpNoCtx of the node is checked on every real tree",
         "ast.parse itself (tree and line numbers are inputs of the model)",
-        "that the staged tweaks `stage6` equal the one-shot specification `tweak` (kinds by real kind): compared by the "
-        "driver on every real tree (stage6_eq_tweak), and c15.spec = dump of `tweak`",
+        "nothing about the tweaks themselves any more: C15_stage6_eq_tweak proves the staged tweaks equal the one-shot "
+        "`tweak` under wfTweak (the driver still compares them on every tree, and reports wfTweak holds/total)",
     ]
     ctx.cov["trusted_base"] = core.BASE_TRUST + [
         "harness/flat_export.py: exporter of the real ast tree (types, fields in iter_fields order, lineno, repr of scalars, "
